@@ -35,6 +35,17 @@ def gen_scenario(rng):
         fq=[rng.choice([20, 57, 120]) for _ in range(6)])
 
 
+def vary(sc, rng):
+    """the same instance, with whatever is in flight re-timed on a 5 ms grid relative to the close"""
+    import copy
+    v = copy.deepcopy(sc)
+    v['reg_in_progress'] = rng.choice([None, rng.randrange(0, 1500, 5), rng.randrange(0, 1500, 5)])
+    v['queries'] = sorted(rng.sample(range(0, 1600, 5), rng.choice([0, 1, 2, 3])))
+    v['registered'] = max(1, v['registered'])
+    v['loopback'] = rng.random() < 0.5
+    return v
+
+
 def run_scenario(sc):
     import asyncio
     from zeroconf import DNSOutgoing, DNSQuestion, const
@@ -221,7 +232,7 @@ def run(ctx):
                        "simulated link, with and without multicast loopback; afterwards B withdraws and registers services and two hours of virtual time "
                        "pass, then A is closed again; observed: every datagram A transmits, every browser/lookup callback, the loop exception handler; "
                        "distinct = distinct scenarios; the sync close() from a foreign thread is not exercised (it wraps the same coroutines)")
-    c09.replay_model(ctx, ok, 'Model.Node (shutdown) disagrees with the implementation')
+    c09.replay_model(ctx, ok, 'Model.Node (shutdown) disagrees with the implementation', vary=vary)
     return ctx.finish()
 
 
